@@ -672,6 +672,13 @@ func (g *graph) compile(ctx context.Context, opt *graphCompileOptions) (*composa
 		}
 	}
 
+	// a pass-through node that never got a data edge is not in toValidateMap, and still has no type
+	for key, node := range g.nodes {
+		if node.cr != nil && node.cr.genericHelper == nil {
+			return nil, fmt.Errorf("the input and output types of pass-through node[%s] cannot be inferred: it has no data edge", key)
+		}
+	}
+
 	// the pre-node handlers of the compiled runner are assembled in a per-compile copy: the runner must
 	// not alias builder state, otherwise a later Compile attempt would change an already compiled runnable.
 	handlerPreNode := make(map[string][]handlerPair, len(g.handlerPreNode))
